@@ -62,6 +62,11 @@ func (l *DeadlineLimiter) tryAcquire(ctx context.Context) (listener core.Listene
 
 		// We have reached the limit so block until a token is released
 		timeout := l.deadline.Sub(time.Now().UTC())
+		if timeout <= 0 {
+			// the deadline has been reached: blockUntilSignaled treats a non-positive timeout as
+			// "no timeout" and would wait without bound
+			return nil, false
+		}
 
 		// We have reached the limit so block until:
 		// - A token is released
